@@ -134,10 +134,7 @@ def run(chk):
     chk.extra['small_world'] = {'formats': len(rows)}
     chk.exhaustive = True
     small, wide = (_c11_small, _c11_wide) if pid == 'C11' else (_c12_small, _c12_wide)
-    obs = []
-    for part in core.parallel_map(small, [(row, pid, tier, i) for i, row in enumerate(rows)], chunksize=2):
-        obs += part
     n = (400 if tier == 'quick' else 6000)
-    for part in core.parallel_map(wide, [(chk.seed * 1000 + i, pid, n // core.NPROC + 1) for i in range(core.NPROC)]):
-        obs += part
-    return obs
+    per = max(1, n // (core.NPROC * (1 if tier == 'quick' else 8)))
+    wjobs = [(chk.seed * 1000 + i, pid, per) for i in range(n // per)]
+    return core.stream(small, [(row, pid, tier, i) for i, row in enumerate(rows)], wide, wjobs, tier, step=200)
